@@ -266,6 +266,11 @@ func (o *OLVM) Plan(c *Ctx) []hist.TxSpec {
 	case 39:
 		// ... and the deployment follows (with an endowment)
 		out = append(out, o.create(c, es[0], "prefunded", rtStore, big.NewInt(11)))
+	case 40, 41:
+		// a call that ends in REVERT having used only part of its gas, without and with a value
+		if a, ok := o.contracts["revert"]; ok {
+			out = append(out, o.tx(c, es[1], &a, big.NewInt(int64(o.n-40)*777), nil, 50000, "call reverting contract (gas limit above the gas used)"))
+		}
 	case 34:
 		if a, ok := o.contracts["loop"]; ok {
 			out = append(out, o.tx(c, es[1], &a, big.NewInt(4242), nil, 40000, "value sent into an infinite loop (out of gas)"))
